@@ -127,6 +127,12 @@ Definition rebalance (cfg : spec_cfg) (st : sstate) (s : prices) : option (list 
       end
   end.
 
+(** the same rebalance driven by an explicit target-allocation row (what any alpha model produced):
+    the row is the weight dictionary and there is no separate universe *)
+Definition with_alloc (cfg : spec_cfg) (fw : list (string * Q)) : spec_cfg :=
+  mkSpec (sp_start cfg) (sp_end cfg) [] fw (sp_cash cfg) (sp_schedule cfg) (sp_long_only cfg) (sp_param cfg)
+         (sp_fee cfg) (sp_burn cfg).
+
 Record day_out := mkDay { d_fills : list sfill; d_equity : option (Z * Q) }.
 
 (** one business day: open (fill pending, sells first; a rebalance scheduled at the open fills at
@@ -179,3 +185,65 @@ Fixpoint run_days (cfg : spec_cfg) (market : Z -> prices) (st : sstate) (days : 
 
 Definition spec_run (cfg : spec_cfg) (market : Z -> prices) : option (sstate * list day_out) :=
   run_days cfg market (mkS (sp_cash cfg) [] []) (bdays (sp_start cfg) (sp_end cfg)).
+
+(** * The same rules driven by recorded target allocations
+    Whatever alpha model produced them, the rows of the target-allocation table (one per scheduled
+    rebalance, in order) determine every fill and equity value by the rules above. *)
+Definition rows := list (list (string * Q)).
+
+Definition rebalance_row (cfg : spec_cfg) (st : sstate) (s : prices) (rs : rows) : option (list (string * Z) * rows) :=
+  match rs with
+  | [] => None
+  | fw :: rest => match rebalance (with_alloc cfg fw) st s with Some os => Some (os, rest) | None => None end
+  end.
+
+Definition one_day_rows (cfg : spec_cfg) (market : Z -> prices) (st : sstate) (rs : rows) (d : Z)
+  : option (sstate * rows * day_out) :=
+  let topen := d * 86400 + 52200 in
+  let tclose := d * 86400 + 75600 in
+  let so := market topen in
+  let sc := market tclose in
+  let sells := filter (fun o => snd o <? 0) (st_pending st) in
+  let buys := filter (fun o => negb (snd o <? 0)) (st_pending st) in
+  match fill_all (sp_fee cfg) topen so (mkS (st_cash st) (st_hold st) []) (sells ++ buys) with
+  | None => None
+  | Some (st1, f1) =>
+      let at_open := burn_passed cfg topen && existsb (Z.eqb topen) (sp_schedule cfg) in
+      match (if at_open then
+               match rebalance_row cfg st1 so rs with
+               | None => None
+               | Some (os, rs1) =>
+                   match fill_all (sp_fee cfg) topen so st1 os with Some (st2, f2) => Some (st2, f2, rs1) | None => None end
+               end
+             else Some (st1, [], rs)) with
+      | None => None
+      | Some (st2, f2, rs1) =>
+          let at_close := burn_passed cfg tclose && existsb (Z.eqb tclose) (sp_schedule cfg) in
+          match (if at_close then rebalance_row cfg st2 sc rs1 else Some ([], rs1)) with
+          | None => None
+          | Some (os, rs2) =>
+              let st3 := mkS (st_cash st2) (st_hold st2) os in
+              match value_of (st_hold st3) sc with
+              | None => None
+              | Some v =>
+                  Some (st3, rs2, mkDay (f1 ++ f2)
+                                        (if burn_passed cfg tclose then Some (tclose, (st_cash st3 + v)%Q) else None))
+              end
+          end
+      end
+  end.
+
+Fixpoint run_days_rows (cfg : spec_cfg) (market : Z -> prices) (st : sstate) (rs : rows) (days : list Z)
+  : option (sstate * rows * list day_out) :=
+  match days with
+  | [] => Some (st, rs, [])
+  | d :: r =>
+      match one_day_rows cfg market st rs d with
+      | None => None
+      | Some (st1, rs1, o) =>
+          match run_days_rows cfg market st1 rs1 r with Some (st2, rs2, os) => Some (st2, rs2, o :: os) | None => None end
+      end
+  end.
+
+Definition spec_run_rows (cfg : spec_cfg) (market : Z -> prices) (rs : rows) : option (sstate * rows * list day_out) :=
+  run_days_rows cfg market (mkS (sp_cash cfg) [] []) rs (bdays (sp_start cfg) (sp_end cfg)).
